@@ -107,11 +107,13 @@ func C07(c *Ctx) {
 		"(keys) the record is written under key (msg.id, msg.Height) resp. (msg.id, stored LastTimestampId+1) — the same id and height that were compared; (A3/A4) the cursor is advanced to exactly that height/id on every success path; " +
 		"(A7) field fidelity of the stored record: each stored field originates from the like-named message field (block time for SubTime), and the point query reads through the same key layout with the request's id and height; " +
 		"(A2) a rejecting length comparison exists for every hash field. Decides these structural necessary conditions on every path; the inductive claim 'all stored heights <= Lastblock' is not decided."
-	r.Rules = []string{"A1.record-writers", "A2.record-guards", "A7.record-key", "A3.cursor-update", "A7.record-fields", "A7.point-query-key", "A2.size-checks", "A7.exported-cursor"}
+	r.Rules = []string{"A1.record-writers", "A2.record-guards", "A7.record-key", "A3.cursor-update", "A7.record-fields", "A7.point-query-key", "A2.size-checks", "A7.exported-cursor", "A12.decode-fresh"}
 	r.Trusted = []string{"KVStore Set/Get semantics", "baseapp calls ValidateBasic before dispatch"}
 	r.NotDecided = []string{"inductive invariant: every stored height <= Lastblock", "pruning order (C08)"}
 	// the cursor survives an export/import cycle unchanged (otherwise old heights become writable again)
 	exportCountersRule(c, "A7.exported-cursor", map[string]bool{"Lastblock": true, "LastTimestampId": true})
+	// what a query or an export returns is the stored record alone: no decode into a variable that still holds another record
+	decodeFresh(c, "wrkchain", "beacon")
 	for _, rm := range recMods {
 		isW := func(e ir.Effect) bool { return e.Kind == "StoreWrite" && e.Section == rm.SecRec }
 		isD := func(e ir.Effect) bool { return e.Kind == "StoreDelete" && e.Section == rm.SecRec }
@@ -367,8 +369,10 @@ func C09(c *Ctx) {
 	r.Explanation = "(A1) the id counter and the registration section are written only from the roots of the registration life-cycle; (A3) the register route reads the id from the counter section, stores the registration and the default limit, and stores counter := id + 1 on every success path; " +
 		"(A7) field fidelity of the registration literal: Moniker, Name, genesis hash / type come from the like-named message fields, Owner = str(addr(msg.Owner)), id = the counter value, cursor and counters zero, RegTime = block time, stored under the key of that id; " +
 		"(A4) every other writer of the registration section (the record step) re-stores the loaded registration with only the cursor/counter fields changed — never Owner, Moniker, Name, Genesis, Type, RegTime or the id; (A2) owner guards are those of C13/C07 with the id of the key written; (A7) genesis export hands the stored id counter (the next unused id) to the exported starting id, so an export/import cycle cannot re-issue an id. Uniqueness as an inductive property of the counter and uint64 wrap are not decided."
-	r.Rules = []string{"A1.registration-writers", "A3.id-counter", "A7.registration-fields", "A4.immutable-fields", "A7.exported-id-counter"}
+	r.Rules = []string{"A1.registration-writers", "A3.id-counter", "A7.registration-fields", "A4.immutable-fields", "A7.exported-id-counter", "A12.decode-fresh"}
 	exportGenesisArgs(c, "A7.exported-id-counter", true)
+	// a listing or an export hands back each registration as stored (no field inherited from the registration decoded before it)
+	decodeFresh(c, "wrkchain", "beacon")
 	r.Trusted = []string{"KVStore semantics"}
 	r.NotDecided = []string{"uniqueness of ids over histories (inductive)", "uint64 wrap of the id counter at 2^64"}
 	for _, rm := range recMods {
